@@ -5,6 +5,7 @@
   sequence.  Positions are not modelled.
 -/
 import Genshi.Model.Core
+import Genshi.Model.XmlCore
 namespace Genshi.Xml
 open Genshi
 
@@ -44,7 +45,7 @@ def handleCb (entity : Str → Option Char) : Cb → CbResult
   | .data s => .events [.text s false]
   | .xmlDecl v e s => .events [.xmlDecl v e s]
   | .doctype n sysid pubid => .events [.doctype n pubid sysid]
-  | .startNs p u => .events [.startNs (p.getD []) (u.getD [])]
+  | .startNs p u => .events [.startNs (p.getD []) (u.getD noneUri)]   -- `(prefix or '', uri)`: the URI stays `None` (xmlns="")
   | .endNs p => .events [.endNs (p.getD [])]
   | .startCdata => .events [.startCdata]
   | .endCdata => .events [.endCdata]
@@ -76,5 +77,33 @@ def coalesceGo : Option Str → Stream → Stream
   | some t, e :: es => .text t false :: e :: coalesceGo none es
 
 def coalesce (s : Stream) : Stream := coalesceGo none s
+
+/-- `XMLParser.parse()` above expat: the callbacks' queue through `_coalesce`;
+    `false`: an undefined entity ended the parse (ParseError) after these events -/
+def parseCbs (entity : Str → Option Char) (cbs : List Cb) : Stream × Bool :=
+  let (es, ok) := runCbs entity cbs
+  (coalesce es, ok)
+
+/-! ### `ET(element)`: an ElementTree element as a stream -/
+
+/-- what `ET` reads of an element: tag, `items()`, `text`, children, `tail` -/
+inductive ETree where
+  | node (tag : Str) (attrs : List (Str × Str)) (text : Option Str) (kids : List ETree) (tail : Option Str)
+
+/-- `if element.text:` — `None` and `''` give no event -/
+def etText : Option Str → Stream
+  | some (c :: cs) => [.text (c :: cs) false]
+  | _ => []
+
+mutual
+/-- `ET(element)`; `QName(tag.lstrip('{'))` is `qnameOf` (which drops leading `{` itself) -/
+def etStream : ETree → Stream
+  | .node tag attrs text kids tail =>
+      .start (qnameOf tag) (attrs.map fun (k, v) => (qnameOf k, v)) :: (etText text ++ etKids kids) ++
+        .end_ (qnameOf tag) :: etText tail
+def etKids : List ETree → Stream
+  | [] => []
+  | k :: ks => etStream k ++ etKids ks
+end
 
 end Genshi.Xml
